@@ -138,6 +138,7 @@ func runC19(r *rt.Run) {
 			r.Sample(map[string]any{"segment": segG(fl[7].A, fl[7].B), "probe": ptG(fh[3]), "transform": t.String()})
 		}
 	}
+	c19Long(r)
 	r.Sample(map[string]any{"segment_pair": []any{segG(geometry.Point{X: 0, Y: 1}, geometry.Point{X: 0, Y: 2}), segG(geometry.Point{X: 0, Y: 0}, geometry.Point{X: 0, Y: 3})}, "note": "nested collinear pair (needs 4 collinear lattice points)"})
 }
 
@@ -188,4 +189,132 @@ func evalC19(c *rt.Case) (bool, string, string, error) {
 		return got != want, fmt.Sprint(want), fmt.Sprint(got), nil
 	}
 	return false, "", "", fmt.Errorf("unknown op")
+}
+
+// c19Long widens the envelope beyond the small lattice: the decisions of the
+// kernels depend only on order types, but a reformulated kernel can round
+// differently once coordinate differences have large odd factors, and a
+// tolerance can only show on long segments. (1) Segments anchored at a few
+// origins with far endpoints over a 65x65 (thorough 129x129) grid against
+// every lattice point of their bounding box, at unit scale and shifted to
+// +-2^20; (2) anchored segment pairs; (3) near-miss / near-hit pairs with
+// coordinates up to 2^20 (a segment passing an endpoint of another at a
+// distance of 1/N), in all 8 orientations and both operand orders.
+func c19Long(r *rt.Run) {
+	span := int64(32)
+	if r.Thorough() {
+		span = 64
+	}
+	r.Bounds["long_segment_span"] = span
+	anchors := []exact.P{{X: 0, Y: 0}, {X: -3, Y: 2}, {X: 1, Y: -1}}
+	unit := []Xf{{Scale: 1}, {Scale: 1, Tx: 1048576 - 70, Ty: -1048576 + 70}, {Scale: 0.5}}
+	var ends []exact.P
+	for y := -span; y <= span; y++ {
+		for x := -span; x <= span; x++ {
+			ends = append(ends, exact.P{X: x, Y: y})
+		}
+	}
+	r.States.Add(int64(len(anchors) * len(ends)))
+	r.ParFor(len(ends), func(i int, w *rt.Worker) {
+		b := ends[i]
+		for _, a := range anchors {
+			for ti, t := range unit {
+				for _, sg := range [][2]exact.P{{a, b}, {b, a}} {
+					fsg := geometry.Segment{A: t.pt(sg[0]), B: t.pt(sg[1])}
+					x0, x1 := min(a.X, b.X), max(a.X, b.X)
+					y0, y1 := min(a.Y, b.Y), max(a.Y, b.Y)
+					for y := y0; y <= y1; y++ {
+						for x := x0; x <= x1; x++ {
+							p := exact.P{X: x, Y: y}
+							on := exact.OnSeg(p, sg[0], sg[1])
+							// only points on the segment and their neighbours: that is where formulas can differ
+							if !on && exact.Orient(sg[0], sg[1], p) != 0 && !nearSeg(p, sg[0], sg[1]) {
+								continue
+							}
+							fp := t.pt(p)
+							w.Evals++
+							if on {
+								w.Nontriv++
+							}
+							in := !on && exact.RayCross(p.R(), sg[0], sg[1])
+							res := fsg.Raycast(fp)
+							if res.On != on || res.In != in {
+								w.Fail("raycast-long", func() (rt.Case, string, string) {
+									return rt.Case{Kind: "seg-point", Op: "raycast", A: segG(fsg.A, fsg.B), B: ptG(fp), X: t.x()},
+										fmt.Sprintf("on=%v in=%v", on, in), fmt.Sprintf("on=%v in=%v", res.On, res.In)
+								})
+							}
+							if got := fsg.CollinearPoint(fp); got != exact.Collinear(p, sg[0], sg[1]) {
+								w.Fail("collinear-long", func() (rt.Case, string, string) {
+									return rt.Case{Kind: "seg-point", Op: "collinear", A: segG(fsg.A, fsg.B), B: ptG(fp), X: t.x()}, fmt.Sprint(!got), fmt.Sprint(got)
+								})
+							}
+						}
+					}
+				}
+				_ = ti
+			}
+		}
+		// pairs: (0,0)-b against (-3,2)-d for d on a coarser grid
+		if i%1 == 0 {
+			a, c := anchors[0], anchors[1]
+			fs := geometry.Segment{A: unit[0].pt(a), B: unit[0].pt(b)}
+			for j := 0; j < len(ends); j += 7 {
+				d := ends[j]
+				fo := geometry.Segment{A: unit[0].pt(c), B: unit[0].pt(d)}
+				want := exact.SegsIntersect(a, b, c, d)
+				w.Evals += 2
+				g1, g2 := fs.IntersectsSegment(fo), fo.IntersectsSegment(fs)
+				if g1 != want || g2 != want {
+					w.Fail("intersects-long", func() (rt.Case, string, string) {
+						return rt.Case{Kind: "seg-seg", Op: "intersects", A: segG(fs.A, fs.B), B: segG(fo.A, fo.B), X: unit[0].x()}, fmt.Sprint(want), fmt.Sprintf("%v / swapped %v", g1, g2)
+					})
+				}
+			}
+		}
+	})
+	// near misses and near hits on long segments
+	w := r.Worker()
+	for _, n := range []int64{12, 100, 4097, 65537, 1000000, 1048570} {
+		for _, da := range []int64{-1, 0, 1, 2} {
+			for _, db := range []int64{-1, 0, 1, 2} {
+				for _, top := range []int64{n, 1, 7} {
+					for sym := 0; sym < 8; sym++ {
+						q := func(x, y int64) exact.P { sx, sy := symApply(sym, x, y); return exact.P{X: sx, Y: sy} }
+						a, b := q(0, 0), q(n, 0)
+						c, d := q(n+da, top), q(n+db, -1)
+						if abs64i(c.X) > 1<<20 || abs64i(c.Y) > 1<<20 || abs64i(d.X) > 1<<20 || abs64i(d.Y) > 1<<20 {
+							continue
+						}
+						want := exact.SegsIntersect(a, b, c, d)
+						t := Xf{Scale: 1}
+						fs := geometry.Segment{A: t.pt(a), B: t.pt(b)}
+						fo := geometry.Segment{A: t.pt(c), B: t.pt(d)}
+						w.Evals += 2
+						w.Nontriv++
+						w.States += 2
+						g1, g2 := fs.IntersectsSegment(fo), fo.IntersectsSegment(fs)
+						if g1 != want || g2 != want {
+							w.Fail("intersects-near-miss", func() (rt.Case, string, string) {
+								return rt.Case{Kind: "seg-seg", Op: "intersects", A: segG(fs.A, fs.B), B: segG(fo.A, fo.B), X: t.x()}, fmt.Sprint(want), fmt.Sprintf("%v / swapped %v", g1, g2)
+							})
+						}
+					}
+				}
+			}
+		}
+	}
+	w.Flush()
+}
+
+// nearSeg: p is one lattice step away from a lattice point of the segment's supporting strip.
+func nearSeg(p, a, b exact.P) bool {
+	for dy := int64(-1); dy <= 1; dy++ {
+		for dx := int64(-1); dx <= 1; dx++ {
+			if exact.OnSeg(exact.P{X: p.X + dx, Y: p.Y + dy}, a, b) {
+				return true
+			}
+		}
+	}
+	return false
 }
